@@ -8,16 +8,16 @@ import tempfile
 
 ID = "C07"
 LEVEL = "proof"
-# harness.cpp is compiled in 8 parts, 4 at a time (props/C07/pcxx.py): ~25 s instead of ~55 s after a change of /repo/include
+# harness.cpp is compiled in 14 parts, 4 at a time (props/C07/pcxx.py): ~40 s instead of ~95 s after a change of /repo/include
 HARNESSES = [{"name": "main", "src": "harness.cpp",
               "compiler": os.path.join(os.path.dirname(os.path.abspath(__file__)), "pcxx.py"),
-              "flags": ["-std=c++2b", "-O1", "-fno-lifetime-dse", "-DTETL_ENABLE_CONTRACT_CHECKS=1", "-DC07_NPARTS=10"]},
+              "flags": ["-std=c++2b", "-O1", "-fno-lifetime-dse", "-DTETL_ENABLE_CONTRACT_CHECKS=1", "-DC07_NPARTS=14"]},
              # ASan+UBSan build of the same harness (thorough tier; also picked up by C02's aggregated sanitizer run).
              # -O0: the instrumented -O1 build costs ~6 CPU-minutes, -O0 ~2.5
              {"name": "asan", "src": "harness.cpp", "thorough_only": True,
               "compiler": os.path.join(os.path.dirname(os.path.abspath(__file__)), "pcxx.py"),
               "flags": ["-std=c++2b", "-O0", "-fno-lifetime-dse", "-fsanitize=address,undefined",
-                        "-fno-sanitize-recover=all", "-DTETL_ENABLE_CONTRACT_CHECKS=1", "-DC07_NPARTS=10"]}]
+                        "-fno-sanitize-recover=all", "-DTETL_ENABLE_CONTRACT_CHECKS=1", "-DC07_NPARTS=14"]}]
 
 RULE = ("a case is a whole operation history on two objects a,b (plus an optional<U>/unexpected<E2> c); exhaustive: "
         "every history of depth <= 2 over the FULL op alphabet (all alternatives x 3 values x emplace/in_place by index "
@@ -36,13 +36,21 @@ RULE = ("a case is a whole operation history on two objects a,b (plus an optiona
         "returns for a reference-returning visitor (reference kept, identity, write-through), get_if(nullptr), visit of no "
         "variant, etl::visit with a non-variant operand, swap of two arrays of variants; compile-only API probes "
         "(extra_checks): provided call forms must compile, recorded-missing ones (optional vs nullopt >,<=,>=; expected "
-        "assignment/swap/==) must still be ill-formed. "
+        "assignment/swap/==) must still be ill-formed. Special-member families sm*: alternatives Sm<F> whose copy ctor / move ctor / "
+        "copy assignment / move assignment / destructor are one by one trivial or user-provided (F = all 32 combinations; a "
+        "user-provided member logs an event, a user-provided move leaves 99 in its source) in variant<int,Sm<F>>, optional<Sm<F>>, "
+        "expected<Sm<F>,int>, expected<int,Sm<F>> and three 3-alternative lists: every (alternative of a, alternative of b) pair x "
+        "copy/move assignment, copy/move construction, self copy/move, assignment from a temporary, optional<U> source engaged or not "
+        "x converting copy/move assignment; every history of depth <= 2 for 10 flag sets (thorough: all), random depth 3..8; printed: "
+        "the static triviality traits of the alternatives and of the wrapper, states, temporaries, the event sequence of every step "
+        "and of the final destruction. "
         "non-trivial = distinct case line with impl outcome ok and at least one step (or a dispatcher case)")
 
 TRUSTED_BASE = ["reference leg: libstdc++ 12 std::variant / std::optional / std::expected (-std=c++2b) on the same histories",
                 "reference for optional<T&> (not in libstdc++ 12): a hand-written pointer cell per P2988",
                 "reference for expected::and_then/or_else (not in libstdc++ 12): [expected.object.monadic] written out over std::expected",
-                "Tracked/Tracked2 instrumented element types (props/C07/c07_types.hpp), -fno-lifetime-dse so that the destructor's poison store is kept"]
+                "Tracked/Tracked2 instrumented element types (props/C07/c07_types.hpp), -fno-lifetime-dse so that the destructor's poison store is kept",
+                "Sm<F> element types with conditionally trivial special members (props/C07/c07_sm.hpp, P0848 requires-clauses) and their global event log"]
 ASSUMPTIONS = ["LP64; char is signed; g++ 12 overload resolution and narrowing rules as the reference for the alternative selection"]
 
 # type ids shared with harness and Coq: 0 bool 1 char 2 short 3 int 4 long 5 float 6 double 7 Tracked 8 Tracked2
@@ -290,6 +298,73 @@ def unx_full(nan=False):
     return out
 
 
+# ---- special-member families: <family>.<F>, F = flag set of the class alternative Sm<F> (bit 0 copy ctor, 1 move
+# ctor, 2 copy assignment, 3 move assignment, 4 destructor user-provided); smw.* three alternatives, two flag sets
+SM_KINDS = {"smv": (2, "var"), "smo": (2, "opt"), "sme": (2, "exp"), "smf": (2, "exp")}
+SM_W = {"smw.a": 3, "smw.b": 3, "smw.c": 3}
+SM_DEEP = (0, 1, 2, 4, 8, 16, 3, 12, 30, 31)   # flag sets that also get every history of depth <= 2
+
+
+def sm_alpha(n, kind):
+    out = []
+    for t in (0, 1):
+        for i in range(n):
+            if kind == "exp" and i == 1:
+                continue                      # expected has no in-place way to hold an error: I only
+            for v in (1, 2):
+                out.append(step("E", t, i, 0 if (kind == "opt" and i == 0) else v))
+        for i in range(n):
+            out.append(step("I", t, i, 0 if (kind == "opt" and i == 0) else 3))
+        for opc in "CMKJFG" + ("xy" if kind == "opt" else ""):
+            out.append(step(opc, t))
+    if kind == "opt":
+        out += [step("Q", 0, 0, 5), step("Q", 0, 0, 6), step("R")]
+    return out
+
+
+def sm_pairs(n, kind):
+    """every (alternative of a, alternative of b) x every assignment / construction / self op (+ the optional<U> source
+    engaged or not x the converting assignments)"""
+    def put(t, i, v):
+        if kind == "exp" and i == 1:
+            return step("I", t, i, v)
+        return step("E", t, i, 0 if (kind == "opt" and i == 0) else v)
+    out = []
+    ops = [step(o, t) for o in "CMKJFG" for t in (0, 1)] + [step("I", 0, i, 0 if (kind == "opt" and i == 0) else 3) for i in range(n)]
+    for i in range(n):
+        for j in range(n):
+            pre = [put(0, i, 1), put(1, j, 2)]
+            for o in ops:
+                out.append(pre + [o])
+            if kind == "opt":
+                for c in ([step("Q", 0, 0, 5)], [step("R")]):
+                    for o in (step("x", 0), step("y", 0), step("x", 1), step("y", 1)):
+                        out.append(pre + c + [o])
+                        out.append(pre + c + [o, o])
+    return out
+
+
+def sm_cases(quick, search, rng):
+    out = []
+    fams = [(f"{k}.{f}", n, kind, f in SM_DEEP) for k, (n, kind) in SM_KINDS.items() for f in range(32)]
+    fams += [(k, n, "var", True) for k, n in SM_W.items()]
+    for op, n, kind, deep in fams:
+        alpha = sm_alpha(n, kind)
+        out.append(line(op, []))
+        if not search:
+            for h in sm_pairs(n, kind):
+                out.append(line(op, h))
+            if deep or not quick:
+                for h in histories(alpha, 2):
+                    out.append(line(op, h))
+            if deep and not quick:
+                for h in exact([a for a in alpha if a[0] in "EMCJ" or a[0] in "xy"], 3):
+                    out.append(line(op, h))
+        for _ in range((60 if quick else 600) if not search else 150):
+            out.append(line(op, rand_hist(rng, alpha, 3, 8)))
+    return out
+
+
 def histories(alpha, depth):
     for d in range(1, depth + 1):
         for h in itertools.product(alpha, repeat=d):
@@ -440,6 +515,8 @@ def gen(tier, rng):
         out.append(line("cbref.d", rand_hist(rng, full, 3, 10)))
     for _ in range(nrand):
         out.append(line("cbref.d", rand_hist(rng, core, 4, 12)))
+    # ---------------- special members by triviality
+    out += sm_cases(quick, search, rng)
     # ---------------- visit dispatcher: every size tuple in {1..4}^k, k<=3, every active tuple
     for k in (1, 2, 3):
         for sizes in itertools.product((1, 2, 3, 4), repeat=k):
